@@ -563,10 +563,15 @@ func genRef(r *vh.Rng, ns string) string {
 }
 
 // malformed: the stream where most specs are broken
-func genHistory(r *vh.Rng, id int, malformed bool) Case {
+func genHistory(r *vh.Rng, id int, malformed bool, family int) Case {
 	c := Case{ID: id, Class: "structured", Enabled: !r.Chance(1, 12)}
+	if family == 1 {
+		c.Class = "waf"
+	} else if family == 2 {
+		c.Class = "dos"
+	}
 	if malformed {
-		c.Class = "malformed"
+		c.Class += "-malformed"
 	}
 	for _, n := range nss {
 		for _, m := range names {
@@ -588,6 +593,11 @@ func genHistory(r *vh.Rng, id int, malformed bool) Case {
 			op.Ns, op.Name = "n1", vh.Pick(r, names[:2])
 		}
 		x := r.Intn(100)
+		if family == 1 { // WAF kinds only
+			x = r.Intn(67)
+		} else if family == 2 { // DoS kinds only
+			x = 67 + r.Intn(33)
+		}
 		switch {
 		case x < 36:
 			op.K = 2
@@ -622,6 +632,12 @@ func genHistory(r *vh.Rng, id int, malformed bool) Case {
 		}
 		op.UID, op.TS = st.uid, st.ts // unchanged while the object exists (K2)
 		op.WF = r.Intn(100) < pwf
+		if family == 2 && op.K != 5 && !malformed {
+			op.WF = r.Intn(100) < 70
+			if op.K == 4 {
+				op.WF = r.Intn(100) < 50
+			}
+		}
 		switch op.K {
 		case 0:
 			y := r.Intn(100)
@@ -673,7 +689,7 @@ func genHistory(r *vh.Rng, id int, malformed bool) Case {
 			if op.PolRef == "" && !r.Chance(1, 5) {
 				op.PolRef = genRef(r, op.Ns)
 			}
-			if r.Chance(3, 5) {
+			if r.Chance(3, 5) || (family == 2 && r.Chance(1, 2)) {
 				op.HasLog = true
 				op.LogRef = genRef(r, op.Ns)
 				op.LogDest = "stderr"
@@ -763,7 +779,7 @@ func main() {
 		root := vh.NewRng(a.Seed)
 		for i := 0; i < a.N; i++ {
 			id := len(cases)
-			cases = append(cases, genHistory(root.Fork(uint64(id)), id, i%6 == 5))
+			cases = append(cases, genHistory(root.Fork(uint64(id)), id, i%6 == 5, []int{0, 0, 1, 2}[i%4]))
 		}
 	}
 	w, err := vh.NewWriter(a.Out)
